@@ -269,7 +269,7 @@ proof fn step_case(s: GEl, p: Seq<RdItem>, known: Seq<String>, n: String, m: Str
     }
 }
 /// an occurrence of another element leaves the child called n exactly as it was
-proof fn lemma_step_frame(s: GEl, t: Tag, known: Seq<String>, first: Option<Seq<RdItem>>, s2: GEl, n: String)
+pub proof fn lemma_step_frame(s: GEl, t: Tag, known: Seq<String>, first: Option<Seq<RdItem>>, s2: GEl, n: String)
     requires
         g_wf(s), g_tag_ok(t), utf8_str(t.name) != n,
         match first { Some(c) => g_occ_start(s, t, known, c) == Some(s2), None => g_occ_empty(s, t, known) == Some(s2) },
